@@ -28,7 +28,6 @@ import (
 	"github.com/mutagen-io/mutagen/pkg/synchronization/endpoint/remote"
 	"github.com/mutagen-io/mutagen/pkg/synchronization/rsync"
 	urlpkg "github.com/mutagen-io/mutagen/pkg/url"
-	"github.com/mutagen-io/mutagen/pkg/verif"
 
 	"verif/simkit"
 )
@@ -157,23 +156,7 @@ func (h *harness) setupDisk() error {
 	}
 	h.disk = d
 	filesystem.VerifSyscallHook = d.hook
-	verif.OrderHook = seedOrder(int64(h.plan.Seed))
 	return nil
-}
-
-// seedOrder arranges names in an order that is a pure function of the run seed
-// and the names (see callOrder): it stands in for the map order the runtime
-// would pick when mutagen creates the contents of a directory.
-func seedOrder(salt int64) func(names []string) {
-	return func(names []string) {
-		sort.SliceStable(names, func(a, b int) bool {
-			ha, hb := stableHash(salt, "dir-order", names[a]), stableHash(salt, "dir-order", names[b])
-			if ha != hb {
-				return ha < hb
-			}
-			return names[a] < names[b]
-		})
-	}
 }
 
 // scratchParent is where per-run scratch trees go: the orchestrator's job
@@ -194,7 +177,6 @@ func setHook(f func(op string, dirfd int, path string, dirfd2 int, path2 string)
 
 func (h *harness) teardownDisk() {
 	filesystem.VerifSyscallHook = nil
-	verif.OrderHook = nil
 	if h.disk != nil {
 		if h.disk.inotify >= 0 {
 			unix.Close(h.disk.inotify)
